@@ -24,7 +24,9 @@ import QmcModel.Generic
 import QmcModel.Stepper
 import QmcModel.Rvb
 import QmcModel.IsingHam
+import QmcModel.SamplerCore
 import Mathlib.Tactic.NormNum
+import Mathlib.Tactic.Linarith
 
 namespace Qmc.PureFnsAgree
 
@@ -393,6 +395,153 @@ theorem bonds_fn_set_enable_heatbath_agree : Gen.bonds_fn_set_enable_heatbath = 
 theorem into_qmc_edge_matrix_agree : edgeMat = Gen.into_qmc_edge_matrix := rfl
 theorem into_qmc_transverse_matrix_agree : transverseMat = Gen.into_qmc_transverse_matrix := rfl
 theorem into_qmc_field_matrix_agree : fieldMat = Gen.into_qmc_field_matrix := rfl
+
+/-! ### replicated closures of qmc_ising.rs / qmc_runner.rs (the translator REQUIRES the copies identical) -/
+
+/-- the cluster-weight / ising-ratio closure: 0 on the longitudinal-field bonds, 1 elsewhere -/
+theorem cluster_weight_timestep_agree (bond nedges nvars : Nat) :
+    Gen.cluster_weight_timestep bond nedges nvars = if nedges + nvars ≤ bond then 0 else 1 := by
+  unfold Gen.cluster_weight_timestep
+  by_cases h : nedges + nvars ≤ bond <;> simp [h]
+
+theorem cluster_weight_single_cluster_step_agree :
+    Gen.cluster_weight_single_cluster_step = Gen.cluster_weight_timestep := rfl
+theorem ising_ratio_single_rvb_sweep_agree : Gen.ising_ratio_single_rvb_sweep = Gen.cluster_weight_timestep := rfl
+theorem ising_ratio_timestep_agree : Gen.ising_ratio_timestep = Gen.cluster_weight_timestep := rfl
+
+/-- SamplerCore.lean `IsingSampler.frozenBond` ("the closure returns 0.0 on bond b"), field on -/
+theorem cluster_weight_agree_samplerCore (s : Sampler.IsingSampler) (hh : s.spec.h ≠ 0) (b : Nat) :
+    s.frozenBond b = decide (Gen.cluster_weight_timestep b s.spec.nedges s.spec.nvars = 0) := by
+  rw [cluster_weight_timestep_agree]
+  unfold Sampler.IsingSampler.frozenBond
+  by_cases h : s.spec.nedges + s.spec.nvars ≤ b <;> simp [hh, h]
+
+/-- Rvb.lean derives the ratio of an operator inside the flipped region from the matrix elements; on a legal
+operator (positive weight) it is the translated `ising_ratio` closure — two-site bond -/
+theorem ising_ratio_agree_rvb_edge (E : Rvb.Ising) (bond : Nat) (a b : Bool) (hb : bond < E.edges.length)
+    (hpos : 0 < E.w bond [a, b] [a, b]) :
+    E.w bond [!a, !b] [!a, !b] / E.w bond [a, b] [a, b] =
+      Gen.ising_ratio_timestep bond E.edges.length E.nvars := by
+  have hne : ¬ (E.edges.length + E.nvars ≤ bond) := by omega
+  have hflip : E.w bond [!a, !b] [!a, !b] = E.w bond [a, b] [a, b] := by
+    cases a <;> cases b <;> simp [Rvb.Ising.w, hb, Rvb.twoSite]
+  rw [ising_ratio_timestep_agree, cluster_weight_timestep_agree, hflip, if_neg hne]
+  exact div_self (ne_of_gt hpos)
+
+/-- … transverse bond -/
+theorem ising_ratio_agree_rvb_transverse (E : Rvb.Ising) (bond : Nat) (i : Bool) (h1 : E.edges.length ≤ bond)
+    (h2 : bond < E.edges.length + E.nvars) (hpos : 0 < E.w bond [i] [i]) :
+    E.w bond [!i] [!i] / E.w bond [i] [i] = Gen.ising_ratio_timestep bond E.edges.length E.nvars := by
+  have hne : ¬ (E.edges.length + E.nvars ≤ bond) := by omega
+  have hlt : ¬ (bond < E.edges.length) := by omega
+  have hflip : E.w bond [!i] [!i] = E.w bond [i] [i] := by simp [Rvb.Ising.w, hlt, h2]
+  rw [ising_ratio_timestep_agree, cluster_weight_timestep_agree, hflip, if_neg hne]
+  exact div_self (ne_of_gt hpos)
+
+/-- … longitudinal bond: the flipped operator has weight 0 -/
+theorem ising_ratio_agree_rvb_field (E : Rvb.Ising) (bond : Nat) (i : Bool)
+    (h2 : E.edges.length + E.nvars ≤ bond) (hpos : 0 < E.w bond [i] [i]) :
+    E.w bond [!i] [!i] / E.w bond [i] [i] = Gen.ising_ratio_timestep bond E.edges.length E.nvars := by
+  have h1 : ¬ (bond < E.edges.length) := by omega
+  have h3 : ¬ (bond < E.edges.length + E.nvars) := by omega
+  have hflip : E.w bond [!i] [!i] = 0 := by
+    cases i <;> simp [Rvb.Ising.w, h1, h3, Rvb.longitudinal, Rvb.absR] at hpos ⊢ <;> split_ifs at hpos ⊢ <;> linarith
+  rw [ising_ratio_timestep_agree, cluster_weight_timestep_agree, hflip, if_pos h2]
+  simp
+
+/-- the RVB diagonal edge weight closure, instantiated with the model's Hamiltonian and edge list, is Rvb.lean's
+`twoSite` of that edge -/
+theorem rvb_edge_weight_agree_rvb (E : Rvb.Ising) (b u v : Nat) (j : Rat) (sa sb : Bool)
+    (he : E.edges[b]? = some (u, v, j)) :
+    Gen.rvb_edge_weight_timestep_field
+        (fun b => ((E.edges.getD b (0, 0, 0)).1, (E.edges.getD b (0, 0, 0)).2.1))
+        (fun _ b i o => E.w b i o) b sa sb = Rvb.twoSite j sa sb := by
+  have hb : b < E.edges.length := by
+    rcases Nat.lt_or_ge b E.edges.length with h | h
+    · exact h
+    · rw [List.getElem?_eq_none h] at he
+      cases he
+  have hg : E.edges[b] = (u, v, j) := by
+    have := List.getElem?_eq_getElem hb
+    rw [this] at he
+    exact Option.some.inj he
+  simp [Gen.rvb_edge_weight_timestep_field, Rvb.Ising.w, hb, hg]
+
+theorem rvb_edge_weight_timestep_nofield_agree :
+    @Gen.rvb_edge_weight_timestep_nofield = @Gen.rvb_edge_weight_timestep_field := rfl
+theorem rvb_edge_weight_single_rvb_sweep_field_agree :
+    @Gen.rvb_edge_weight_single_rvb_sweep_field = @Gen.rvb_edge_weight_timestep_field := rfl
+theorem rvb_edge_weight_single_rvb_sweep_nofield_agree :
+    @Gen.rvb_edge_weight_single_rvb_sweep_nofield = @Gen.rvb_edge_weight_timestep_field := rfl
+
+/-- every cluster update flips with probability 1/2 -/
+theorem cluster_flip_prob_agree :
+    Gen.cluster_flip_prob_single_cluster_step_field = 1 / 2 ∧ Gen.cluster_flip_prob_single_cluster_step_sym = 1 / 2 ∧
+    Gen.cluster_flip_prob_timestep_field = 1 / 2 ∧ Gen.cluster_flip_prob_timestep_sym = 1 / 2 ∧
+    Gen.cluster_flip_prob_cluster_update_sym = 1 / 2 := ⟨rfl, rfl, rfl, rfl, rfl⟩
+
+/-- every free-spin refresh draws with probability 1/2 -/
+theorem free_refresh_prob_agree :
+    Gen.free_refresh_prob_single_cluster_step = 1 / 2 ∧ Gen.free_refresh_prob_timestep = 1 / 2 ∧
+    Gen.free_refresh_prob_flip_free_bits = 1 / 2 := ⟨rfl, rfl, rfl⟩
+
+/-- SamplerCore.lean `isingTimestepWith` with the translated flip probability and cutoff rule in place -/
+theorem cluster_flip_prob_agree_isingTimestep (CK : Sampler.ClusterK) (s : Sampler.IsingSampler) (β : Rat) (rs : RS) :
+    Sampler.isingTimestepWith CK s β rs =
+      (let H := s.spec.ham
+       let d := Sampler.diagUpdate H s.table β s.cutoff s.cfg rs
+       let m := CK Gen.cluster_flip_prob_timestep_field s.frozenBond d.1 d.2
+       let r := Sampler.freeRefresh m.1 m.2
+       ({ s with state := r.1.state, slots := r.1.slots,
+                 cutoff := Gen.cutoff_rule_timestep s.cutoff (countOps r.1.slots) }, r.2)) := rfl
+
+/-- SamplerCore.lean `genericTimestepWith` with the translated flip probability in place -/
+theorem cluster_flip_prob_agree_genericTimestep (LK : Sampler.LoopK) (CK : Sampler.ClusterK) (s : Sampler.GenericSampler)
+    (β : Rat) (rs : RS) :
+    Sampler.genericTimestepWith LK CK s β rs =
+      (let d := Sampler.genericDiagonalUpdate s β rs
+       let l := if d.1.doLoop then LK d.1.ham.w d.1.cfg d.2 else (d.1.cfg, d.2)
+       let m := if d.1.shouldCluster then CK Gen.cluster_flip_prob_cluster_update_sym (fun _ => false) l.1 l.2 else l
+       let r := Sampler.freeRefresh m.1 m.2
+       (d.1.withCfg r.1, r.2)) := rfl
+
+/-- SamplerCore.lean `refreshAux`: the draw of a variable without operators uses the translated probability -/
+theorem free_refresh_prob_agree_samplerCore (s : Slots) (v : Nat) (x : Bool) (t : List Bool) (rs : RS) :
+    Sampler.refreshAux s v (x :: t) rs =
+      (if Sampler.hasOps s v then
+        (let r := Sampler.refreshAux s (v + 1) t rs
+         (x :: r.1, r.2))
+      else
+        (let d := rs.genBool Gen.free_refresh_prob_timestep
+         let r := Sampler.refreshAux s (v + 1) t d.2
+         (d.1 :: r.1, r.2))) := by
+  rw [Sampler.refreshAux]
+  rfl
+
+/-- Generic.lean `flipFreeBitsFrom` -/
+theorem free_refresh_prob_agree_generic (slots : Slots) (fuel v : Nat) (st : List Bool) (rs : RS) :
+    flipFreeBitsFrom slots (fuel + 1) v st rs =
+      (if varHasOps slots v then flipFreeBitsFrom slots fuel (v + 1) st rs
+       else
+        (let (b, rs) := rs.genBool Gen.free_refresh_prob_flip_free_bits
+         flipFreeBitsFrom slots fuel (v + 1) (st.set v b) rs)) := by
+  rw [flipFreeBitsFrom]
+  rfl
+
+/-- `steps_to_run` (no hand model computes it: the RVB models take the number of proposals as an input) -/
+theorem steps_to_run_timestep_agree (n : Nat) : Gen.steps_to_run_timestep n = (n + 1) / 2 := rfl
+theorem steps_to_run_single_rvb_sweep_agree : Gen.steps_to_run_single_rvb_sweep = Gen.steps_to_run_timestep := rfl
+
+/-- the `h` closures just forward to `Self::hamiltonian(&hinfo, …)` -/
+theorem h_closure_timestep_agree : @Gen.h_closure_timestep = fun f => f := rfl
+theorem h_closure_single_diagonal_step_agree : @Gen.h_closure_single_diagonal_step = @Gen.h_closure_timestep := rfl
+theorem h_closure_single_rvb_sweep_agree : @Gen.h_closure_single_rvb_sweep = @Gen.h_closure_timestep := rfl
+theorem h_closure_set_enable_heatbath_agree : @Gen.h_closure_set_enable_heatbath = @Gen.h_closure_timestep := rfl
+
+/-- Ham.lean `isingHam`: its weight function is the translated `h` closure over `IsingModel.hamiltonian` -/
+theorem h_closure_agree_isingHam (m : IsingModel) (vars : List Nat) (b : Nat) (i o : List Bool) (hb : b < m.numBonds) :
+    (isingHam m).w b i o = Gen.h_closure_timestep (fun _ b i o => m.hamiltonian b i o) vars b i o := by
+  simp [isingHam, hb, Gen.h_closure_timestep]
 
 /-! ### `get_mat_var_size` (src/sse/qmc_runner.rs) -/
 
